@@ -181,7 +181,8 @@ TAGS = {
     "underline blue": ("K_ublue", ["underline blue", "blue underline", "u blue"], _sp({"underline": True}, color="blue")),
 }
 TAG_NAMES = sorted(TAGS)
-LEAVES = ["x", "hello world", "a b", "\n", "line\nbreak", " ", "[1]", "a[b]c", "[red]", "[/]", "\\[x]", "[]", "]", "1,2", "漢字", "é", "a=b", "#", "[/red]", "[link=z]q"]
+LEAVES = ["x", "hello world", "a b", "\n", "line\nbreak", " ", "[1]", "a[b]c", "[red]", "[/]", "\\[x]", "[]", "]", "1,2", "漢字", "é", "a=b", "#", "[/red]", "[link=z]q", "cr\r\nlf", "bs\x08x", "ff\x0c", "\r"]
+STRIPPED = "\x08\x0b\x0c\r"  # Text drops these; spans must still land on the characters that remain
 
 
 def leaf_strategy():
@@ -246,9 +247,10 @@ def interpret(events):
             markup += escape(leaf)
             if not error:
                 cur = GS.merge(*[spec for _, spec in stack])
-                for ch in leaf:
+                kept = "".join(ch for ch in leaf if ch not in STRIPPED)
+                for ch in kept:
                     per_char.append(cur)
-                plain += leaf
+                plain += kept
         elif kind == "open":
             markup += "[" + ev[1] + "]"
             if not error:
@@ -285,7 +287,8 @@ class TagDocs(Part):
 
     def strategy(self, tier):
         free = st.lists(event_strategy(), min_size=1, max_size=14).map(lambda evs: [list(e) for e in evs])
-        return st.one_of(free, well_nested(), well_nested()).map(lambda evs: {"events": evs})
+        base = st.one_of(st.none(), st.none(), st.sampled_from(GS.PALETTE))
+        return st.builds(lambda evs, b1, b2: {"events": evs, "base": b1, "base2": b2}, st.one_of(free, well_nested(), well_nested()), base, base)
 
     def check(self, spec, ctx):
         from rich.markup import render
@@ -325,6 +328,24 @@ class TagDocs(Part):
                 ctx.violation("styling", "C04/style/precedence" if set(a for a, _ in sv[0]) | {bool(sv[1]), bool(sv[2]), bool(sv[3])} == set(a for a, _ in wv[0]) | {bool(wv[1]), bool(wv[2]), bool(wv[3])} else "C04/style/coverage",
                               "render(%r): character %d %r has %r, expected %r" % (markup, i, ch, sv, wv))
                 return
+        # the same document under a base style, twice with different ones (what one call computed must not colour the next)
+        for bspec in (spec.get("base"), spec.get("base2")):
+            if bspec is None:
+                continue
+            tb = sut(render, markup, style=GS.build_style(bspec), emoji=False)
+            gotb = TV.char_styles(tb)
+            if tb.plain != plain:
+                ctx.violation("plain", "C04/plain/base-style", "render(%r, style=...) plain %r, expected %r" % (markup, tb.plain, plain))
+                return
+            for i, ((ch, sv), want) in enumerate(zip(gotb, per_char)):
+                wv = GS.spec_view(GS.merge(bspec, want))
+                if sv != wv:
+                    ctx.violation("styling", "C04/style/base-style", "render(%r, style=%r): character %d %r has %r, expected %r" % (markup, bspec, i, ch, sv, wv))
+                    return
+        again = sut(render, markup, emoji=False)
+        if again.plain != plain or TV.char_styles(again) != got:
+            ctx.violation("styling", "C04/style/not-repeatable", "render(%r) gives a different result after the same markup was rendered with a base style" % markup)
+            return
         # Text.from_markup agrees
         t2 = sut(Text.from_markup, markup, emoji=False)
         if t2.plain != plain or TV.char_styles(t2) != got:
